@@ -2,6 +2,7 @@ package main
 
 import (
 	"fmt"
+	"go/token"
 	"go/types"
 	"sort"
 	"strings"
@@ -113,6 +114,7 @@ func runC16(r *Run, p *Prog) {
 		return false
 	}
 	acc := fieldAccesses(fns, ro.ServiceT)
+	acc = append(acc, sharedSliceWrites(p, fns, ro.ServiceT)...)
 	r.Stat("service_field_access_sites", len(acc))
 	type ainfo struct {
 		FieldAccess
@@ -187,35 +189,84 @@ func runC16(r *Run, p *Prog) {
 	r.Note("fields exempt (written only in the constructor): %v", exempt)
 	r.Floor("LS", 10)
 
-	// GV: package-level variables written only by init
+	// GV: package-level variables are written only by package initialisation, or every access outside it holds a
+	// common (package-level or Service) lock
 	r.Guard("GV", func() {
 		for _, pk := range []string{pkgVarlink, pkgCtxio} {
-			for _, f := range p.FuncsOf(pk) {
-				if f.Parent() == nil && (f.Name() == "init" || strings.HasPrefix(f.Name(), "init#")) {
+			pfns := p.FuncsOf(pk)
+			pls := ls
+			if pk != pkgVarlink {
+				pls = ComputeLockSets(p, cg, pfns)
+			}
+			type gacc struct {
+				in    ssa.Instruction
+				write bool
+				fn    *ssa.Function
+			}
+			accs := map[*ssa.Global][]gacc{}
+			for _, f := range pfns {
+				isInit := f.Parent() == nil && (f.Name() == "init" || strings.HasPrefix(f.Name(), "init#"))
+				if isInit {
 					continue // package initialisation runs before any goroutine of the library exists
 				}
 				for _, b := range f.Blocks {
 					for _, in := range b.Instrs {
-						st, ok := in.(*ssa.Store)
-						if !ok {
-							continue
+						switch x := in.(type) {
+						case *ssa.Store:
+							if g := globalOf(x.Addr); g != nil {
+								accs[g] = append(accs[g], gacc{in, true, f})
+							}
+						case *ssa.UnOp:
+							if g := globalOf(x.X); g != nil && x.Op == token.MUL {
+								accs[g] = append(accs[g], gacc{in, false, f})
+							}
 						}
-						g := globalOf(st.Addr)
-						if g == nil {
-							continue
-						}
-						r.Ob("GV", shortName(f), "store to package variable "+g.Name(), st.Pos(), false,
-							"a package-level variable is written outside package initialisation: every goroutine of the library shares it")
 					}
 				}
 			}
 			sp := p.SPkgs[pk]
 			n := 0
 			for _, m := range sp.Members {
-				if g, ok := m.(*ssa.Global); ok && !strings.HasPrefix(g.Name(), "init$") {
-					n++
-					r.Ob("GV", "init", "package variable "+pkShort(pk)+"."+g.Name()+" written only by init", g.Pos(), true, "")
+				g, ok := m.(*ssa.Global)
+				if !ok || strings.HasPrefix(g.Name(), "init$") {
+					continue
 				}
+				n++
+				as := accs[g]
+				anyWrite := false
+				for _, a := range as {
+					if a.write {
+						anyWrite = true
+					}
+				}
+				if !anyWrite {
+					r.Ob("GV", "init", "package variable "+pkShort(pk)+"."+g.Name()+" written only by init", g.Pos(), true, "")
+					continue
+				}
+				// written at run time: every access must hold a common lock
+				var common lockSet
+				for _, a := range as {
+					held := lockSet{}
+					if pls != nil && pls.At[a.in] != nil {
+						held = pls.At[a.in]
+					}
+					if common == nil {
+						common = held.clone()
+					} else {
+						common = common.meet(held)
+					}
+				}
+				var wit []string
+				for _, a := range as {
+					held := lockSet{}
+					if pls != nil && pls.At[a.in] != nil {
+						held = pls.At[a.in]
+					}
+					wit = append(wit, fmt.Sprintf("%s in %s holding %s at %s", rwName(a.write), shortName(a.fn), held, p.Pos(a.in.Pos())))
+				}
+				sort.Strings(wit)
+				r.Ob("GV", pkShort(pk), "run-time accesses of package variable "+g.Name()+" hold a common lock", g.Pos(), len(common) > 0,
+					"a package-level variable is written after initialisation and its accesses hold no common lock: every goroutine of the library shares it", wit...)
 			}
 			r.Stat("package_variables", n)
 		}
@@ -441,4 +492,119 @@ func instrBrief(in ssa.Instruction) string {
 		s = s[:90] + "…"
 	}
 	return s
+}
+
+// sharedSliceWrites: a slice taken out of a Service member (the member itself, or an element of a map/slice member) and
+// handed on - also through parameters of repo functions - is written when something appends to it (append writes into the
+// shared backing array whenever there is spare capacity) or stores through an index. Such a write is an access to the
+// member, performed wherever the append happens.
+func sharedSliceWrites(p *Prog, fns []*ssa.Function, svc *types.Named) []FieldAccess {
+	origin := map[ssa.Value]string{}
+	changed := true
+	mark := func(v ssa.Value, fld string) {
+		if v == nil {
+			return
+		}
+		if _, isSlice := v.Type().Underlying().(*types.Slice); !isSlice {
+			return
+		}
+		if _, seen := origin[v]; !seen {
+			origin[v] = fld
+			changed = true
+		}
+	}
+	isSvcField := func(v ssa.Value) (string, bool) {
+		ld, ok := v.(*ssa.UnOp)
+		if !ok {
+			return "", false
+		}
+		fa, ok := ld.X.(*ssa.FieldAddr)
+		if !ok {
+			return "", false
+		}
+		pt, ok := fa.X.Type().Underlying().(*types.Pointer)
+		if !ok || !types.Identical(pt.Elem(), svc) {
+			return "", false
+		}
+		return fieldName(fa.X, fa.Field), true
+	}
+	for round := 0; changed && round < 20; round++ {
+		changed = false
+		for _, f := range fns {
+			for _, b := range f.Blocks {
+				for _, in := range b.Instrs {
+					switch x := in.(type) {
+					case *ssa.UnOp:
+						if fld, ok := isSvcField(x); ok {
+							mark(x, fld)
+						}
+					case *ssa.Lookup:
+						if fld, ok := isSvcField(x.X); ok {
+							if x.CommaOk {
+								for _, ref := range *x.Referrers() {
+									if ex, ok := ref.(*ssa.Extract); ok && ex.Index == 0 {
+										mark(ex, fld)
+									}
+								}
+							} else {
+								mark(x, fld)
+							}
+						}
+					case *ssa.Phi:
+						for _, e := range x.Edges {
+							if fld, ok := origin[e]; ok {
+								mark(x, fld)
+							}
+						}
+					case *ssa.Slice:
+						if fld, ok := origin[x.X]; ok {
+							mark(x, fld)
+						}
+					case ssa.CallInstruction:
+						if callee := staticTarget(x.Common()); callee != nil && p.InRepo(callee) {
+							for i, a := range x.Common().Args {
+								if fld, ok := origin[a]; ok && i < len(callee.Params) {
+									mark(callee.Params[i], fld)
+								}
+							}
+						}
+					}
+				}
+			}
+		}
+	}
+	var out []FieldAccess
+	for _, f := range fns {
+		for _, b := range f.Blocks {
+			for _, in := range b.Instrs {
+				switch x := in.(type) {
+				case *ssa.Call:
+					if bi, ok := x.Call.Value.(*ssa.Builtin); ok && bi.Name() == "append" && len(x.Call.Args) > 0 {
+						if fld, ok := origin[x.Call.Args[0]]; ok {
+							// appending to the member itself and storing the result back into the member is the ordinary
+							// (locked) update, already recorded as load+store
+							back := false
+							for _, ref := range *x.Referrers() {
+								if st, ok := ref.(*ssa.Store); ok && isStoreToServiceField(st, fld) {
+									back = true
+								}
+							}
+							if !back {
+								out = append(out, FieldAccess{f, fld, true, "append to a slice taken from the shared member (writes its backing array)", x})
+							}
+						}
+					}
+				case *ssa.IndexAddr:
+					if fld, ok := origin[x.X]; ok {
+						for _, ref := range *x.Referrers() {
+							if st, ok := ref.(*ssa.Store); ok && st.Addr == ssa.Value(x) {
+								out = append(out, FieldAccess{f, fld, true, "element store through a slice taken from the shared member", st})
+							}
+						}
+					}
+				}
+			}
+		}
+	}
+	return out
 }
